@@ -1,6 +1,7 @@
 package main
 
 import (
+	"bytes"
 	"crypto/hmac"
 	"crypto/md5"
 	"crypto/sha1"
@@ -30,13 +31,34 @@ func stdHmac(id string, key, msg []byte) []byte {
 	return h.Sum(nil)
 }
 
+// adjacent lays two inputs out the way a caller slicing one receive / scratch buffer would: a | b | sentinel in one backing
+// array, a's capacity reaching over b and the sentinel.  check reports whether any octet of the array was changed.
+func adjacent(a, b []byte) (a2, b2 []byte, check func() bool) {
+	buf := make([]byte, 0, len(a)+len(b)+64)
+	buf = append(append(buf, a...), b...)
+	for i := 0; i < 64; i++ {
+		buf = append(buf, 0xA5)
+	}
+	snap := append([]byte(nil), buf...)
+	return buf[:len(a)], buf[len(a) : len(a)+len(b)], func() bool { return bytes.Equal(buf, snap) }
+}
+
 func implGenIkesa(s suite, nonce, secret []byte, si, sr uint64) (string, *security.IKESAKey) {
 	var k *security.IKESAKey
 	out := run(func() string {
 		k = newSA(s)
-		if err := k.GenerateKeyForIKESA(nonce, secret, si, sr); err != nil {
+		n2, s2, intact := nonce, secret, func() bool { return true }
+		if (len(nonce)+len(secret))%2 == 0 {
+			n2, s2, intact = adjacent(nonce, secret)
+		} else {
+			n2, s2 = exact(nonce), exact(secret)
+		}
+		if err := k.GenerateKeyForIKESA(n2, s2, si, sr); err != nil {
 			k = nil
 			return "err"
+		}
+		if !intact() {
+			return "(inputs-overwritten " + saKeysSX(k) + ")"
 		}
 		return saKeysSX(k)
 	})
@@ -181,8 +203,12 @@ func implChild(k *security.IKESAKey, e, i string, nonce []byte) string {
 		if i != "none" {
 			ch.IntegKInfo = integ.StrToKType(integNames[i])
 		}
-		if err := ch.GenerateKeyForChildSA(k, nonce); err != nil {
+		n2, _, intact := adjacent(nonce, []byte("octets of the caller that follow the nonce"))
+		if err := ch.GenerateKeyForChildSA(k, n2); err != nil {
 			return "err"
+		}
+		if !intact() {
+			return "(inputs-overwritten)"
 		}
 		return fmt.Sprintf("(ok %s %s %s %s)", hx(ch.InitiatorToResponderEncryptionKey), hx(ch.InitiatorToResponderIntegrityKey),
 			hx(ch.ResponderToInitiatorEncryptionKey), hx(ch.ResponderToInitiatorIntegrityKey))
